@@ -373,6 +373,81 @@ func scEditMatrix(tw *hx.TraceWriter, rep *hx.Report) {
 	}
 }
 
+// delegatorEdits: node a3 (output a4) staked with two reward delegators; every shape of a
+// changed delegator map (another key in a map of the same size, another share under the
+// same key, one more, one less, all replaced, unchanged) signed by the output address, by
+// an unrelated key and by the operator.  Only the operator's edits may take effect.
+func scDelegatorEdits(tw *hx.TraceWriter, rep *hx.Report) {
+	for _, start := range []map[string]int64{{"a5": 10, "a6": 25}, {"a5": 10}} {
+		c := traceCfg(hx.Seed()*1000+551+int64(len(start)), 0)
+		w := startScenario(tw, c, "delegator-edits")
+		w.block(plain(), w.stakeTx("a3", "a4", 5000000, []string{"0001"}, urls[1], start, "a3"))
+		shapes := func(cur map[string]int64) []map[string]int64 {
+			cp := func() map[string]int64 {
+				m := map[string]int64{}
+				for k, v := range cur {
+					m[k] = v
+				}
+				return m
+			}
+			keys := make([]string, 0, len(cur))
+			for k := range cur {
+				keys = append(keys, k)
+			}
+			sort.Strings(keys)
+			fresh := ""
+			for _, k := range []string{"a4", "a6", "a5", "a9"} {
+				if _, in := cur[k]; !in {
+					fresh = k
+					break
+				}
+			}
+			var out []map[string]int64
+			if len(keys) > 0 {
+				m := cp() // another key, same size, same share
+				m[fresh] = m[keys[0]]
+				delete(m, keys[0])
+				out = append(out, m)
+				m = cp() // another key, same size, another share
+				delete(m, keys[len(keys)-1])
+				m[fresh] = 90 - int64(10*len(keys))
+				out = append(out, m)
+				m = cp() // same keys, one share changed
+				m[keys[0]]++
+				out = append(out, m)
+				m = cp() // one less
+				delete(m, keys[0])
+				out = append(out, m)
+			}
+			m := cp() // one more
+			m[fresh] = 7
+			out = append(out, m)
+			out = append(out, cp())   // unchanged
+			all := map[string]int64{} // all replaced, same size
+			for i := range keys {
+				all[[]string{"a4", "a9", "a8"}[i]] = int64(5 + i)
+			}
+			if len(all) > 0 {
+				out = append(out, all)
+			}
+			return out
+		}
+		for _, signer := range []string{"a4", "a6", "a3", "a4"} {
+			v := w.s.Project().Val["a3"]
+			for _, dels := range shapes(v.Delegators) {
+				v = w.s.Project().Val["a3"]
+				tx := w.stakeTx("a3", v.Output, v.Tokens, v.Chains, v.URL, dels, signer)
+				w.begin(plain())
+				res := w.deliver(w.buildTx(tx), tx)
+				w.end()
+				rep.Steps++
+				rep.OpCounts["delegator-edit:"+signer+":"+itoa(int(res.Code))]++
+			}
+		}
+		rep.Behaviours++
+	}
+}
+
 // unstakeSession: begin-unstake at every height of a session, with block-time jumps of
 // 0..many intervals around the completion time, by operator and by output address.
 func scUnstakeSession(tw *hx.TraceWriter, rep *hx.Report) {
@@ -551,7 +626,7 @@ func scWallClock(tw *hx.TraceWriter, rep *hx.Report) {
 }
 
 var scenarios = []scenario{
-	{"edit-matrix", scEditMatrix}, {"unstake-session", scUnstakeSession}, {"jail-unjail", scJailUnjail},
+	{"edit-matrix", scEditMatrix}, {"delegator-edits", scDelegatorEdits}, {"unstake-session", scUnstakeSession}, {"jail-unjail", scJailUnjail},
 	{"force-unstake", scForceUnstake}, {"params", scParams}, {"donation", scDonation},
 	{"edit-bypass", scEditBypass}, {"wall-clock", scWallClock},
 }
